@@ -14,6 +14,9 @@ pub fn instances(tier: &str) -> Vec<String> {
     } }
     let cmax = if tier == "thorough" { 4 } else { 2 };
     for m in 1..=cmax { for n in 1..=cmax { v.push(format!("cany:m={},n={}", m, n)); v.push(format!("caffine:m={},n={}", m, n)); } }
+    // "each coordinate is restored before the next is perturbed" over f64: the restored value must be the SAME double
+    v.push("fp_restore:m=1,n=2,of=real".into());
+    v.push("fp_restore:m=1,n=2,of=complex".into());
     v
 }
 
@@ -26,6 +29,38 @@ pub fn body(inst: &str) {
     let delta = Sym::var("delta");
     assume(ne(delta, z()));
     match kind.as_str() {
+        "fp_restore" => {
+            // Over the reals (x + delta) - delta = x; in f64 it is x only when the sum is exact.  The statement asks for the
+            // coordinate to be restored, so every later evaluation must see the very same double: identical term, else
+            // bit-identity for all finite doubles (QF_FP), replayed on the doubles.
+            let complex = p.get("of").map(|s| s == "complex").unwrap_or(false);
+            let group = format!("{} Jacobian: a perturbed coordinate is restored to the same double before the next evaluation", if complex { "complex" } else { "real" });
+            // the statement's own range: evaluation points in [-4, 4]^n, steps between 1e-9 and 2^-4
+            let mut dom: Vec<B> = vec![le(Sym::lit(1.0e-9), delta), le(delta, Sym::lit(0.0625))];
+            for k in 0..n { dom.push(le(x[k].abs(), Sym::lit(4.0))); }
+            let same = |what: &str, got: Sym, want: Sym| {
+                if got.same(want) { count_case(); check_that(true, || String::new()); }
+                else { prove_fp(&format!("{} :: {}", group, what), &dom, B::or(vec![eq(got, want), B::and(vec![ne(got, got), ne(want, want)])])); }
+            };
+            if !complex {
+                let calls: RefCell<Vec<Vec<Sym>>> = RefCell::new(Vec::new());
+                let f = |v: Vec64| -> Vec64 { let k = calls.borrow().len(); calls.borrow_mut().push((0..v.size()).map(|i| v[i]).collect()); Vector::create((0..m).map(|i| Sym::var(&format!("F{}_{}", k, i))).collect()) };
+                match catch(|| Mat64::jacobian(Vector::create(x.clone()), &f, delta)) {
+                    Ok(_) => { let calls = calls.borrow(); if check_that(calls.len() == n + 1, || "n+1 evaluations".into()) { for jc in 0..n { for k in 0..n { if k != jc { same(&format!("evaluation {} coordinate {}", jc + 1, k), calls[jc + 1][k], x[k]); } } } } }
+                    Err(st) => must_not_stop("jacobian", &st),
+                }
+            } else {
+                let xi = var_vec("xi", n);
+                let pt: Vec<Cmplx> = (0..n).map(|k| Cmplx::new(x[k], xi[k])).collect();
+                let calls: RefCell<Vec<Vec<Cmplx>>> = RefCell::new(Vec::new());
+                let f = |v: Vector<Cmplx>| -> Vector<Cmplx> { let k = calls.borrow().len(); calls.borrow_mut().push((0..v.size()).map(|i| v[i]).collect()); Vector::create((0..m).map(|i| Cmplx::new(Sym::var(&format!("Fr{}_{}", k, i)), Sym::var(&format!("Fi{}_{}", k, i)))).collect()) };
+                match catch(|| Matrix::<Cmplx>::jacobian_cmplx(Vector::create(pt.clone()), &f, delta)) {
+                    Ok(_) => { let calls = calls.borrow(); if check_that(calls.len() == n + 1, || "n+1 evaluations".into()) { for jc in 0..n { for k in 0..n { if k != jc { same(&format!("evaluation {} coordinate {} (real part)", jc + 1, k), calls[jc + 1][k].real, pt[k].real); same(&format!("evaluation {} coordinate {} (imaginary part)", jc + 1, k), calls[jc + 1][k].imag, pt[k].imag); } } } } }
+                    Err(st) => must_not_stop("jacobian_cmplx", &st),
+                }
+            }
+            control("fp_restore control", eq(delta, delta + Sym::lit(1.0)));
+        }
         "any" => {
             // the map is arbitrary: every call returns fresh symbols; its arguments are recorded
             let calls: RefCell<Vec<Vec<Sym>>> = RefCell::new(Vec::new());
